@@ -146,12 +146,20 @@ class Objects:
         os.makedirs(d, exist_ok=True)
 
     def get(self, first, stack, notes):
+        """Registers the input (deterministic name by first use); assembled later by build_all."""
         key = repr((first, stack, notes))
         if key not in self.cache:
             name = f"o{len(self.cache)}"
             text = asm_text(first, stack, notes)
-            self.cache[key] = (lu.asm_obj(self.d, name, text), text)
+            lu.write(os.path.join(self.d, name + ".s"), text)
+            self.cache[key] = (os.path.join(self.d, name + ".o"), text)
         return self.cache[key]
+
+    def build_all(self, pool):
+        def one(item):
+            o, _text = item
+            lu.assemble(o[:-2] + ".s", o)
+        list(pool.map(one, list(self.cache.values())))
 
 
 # ---------------------------------------------------------------- observation
@@ -368,15 +376,33 @@ def run(ctx):
         cases.append(gen_case(r, 1 + i % 4, zs[(i // 4) % 3], kinds[(i // 12) % 4]))
     cases += stack_grid_cases(r, not ctx.quick)
 
+    # Process spawns dominate the run time; links are independent, results are collected in case order (deterministic).
+    from concurrent.futures import ThreadPoolExecutor
+    all_built = [[objs.get(k == 0, st, notes) for k, (st, notes) in enumerate(c.files)] for c in cases]
+
+    def link_both(i):
+        c = cases[i]
+        paths = [b[0] for b in all_built[i]]
+        rw = run_link("wild", c, paths, os.path.join(outdir, f"w{i}.out"))
+        if c.isa == "0x1":
+            rl = ("skipped:ld-2.40-aborts-on-x86-64-baseline", [], "")
+        else:
+            rl = run_link("ld", c, paths, os.path.join(outdir, f"l{i}.out"))
+        for f in (f"w{i}.out", f"l{i}.out"):
+            try:
+                os.unlink(os.path.join(outdir, f))
+            except OSError:
+                pass
+        return rw, rl
+
+    with ThreadPoolExecutor(max_workers=4) as pool:
+        objs.build_all(pool)
+        linked = list(pool.map(link_both, range(len(cases))))
+
     reqs, wild_c, ld_c, info = [], [], [], []
     for i, c in enumerate(cases):
-        built = [objs.get(k == 0, st, notes) for k, (st, notes) in enumerate(c.files)]
-        paths = [b[0] for b in built]
-        cw, cmdw, errw = run_link("wild", c, paths, os.path.join(outdir, "w.out"))
-        if c.isa == "0x1":
-            cl, cmdl, errl = "skipped:ld-2.40-aborts-on-x86-64-baseline", [], ""
-        else:
-            cl, cmdl, errl = run_link("ld", c, paths, os.path.join(outdir, "l.out"))
+        built = all_built[i]
+        (cw, cmdw, errw), (cl, cmdl, errl) = linked[i]
         reqs.append(c.request())
         wild_c.append(cw)
         ld_c.append(cl)
@@ -422,6 +448,16 @@ def run(ctx):
             d.update(extra)
         return d
 
+    emitted = set()
+    real_violation = ctx.violation
+
+    def violation_once(key, what, make_replay):
+        # every key is reported once (the runner de-duplicates by key anyway); avoids copying replay files for repeats
+        if key in emitted:
+            return
+        emitted.add(key)
+        real_violation(key, what, make_replay())
+
     for i, (c, *_r) in enumerate(info):
         cw, cl = wild_c[i], ld_c[i]
         if cl.startswith("skipped"):
@@ -439,41 +475,41 @@ def run(ctx):
         if cw == "err:stack":
             ctx.cov["impl_oracle_failures"] += 1
             if any_x and c.z == "-":
-                ctx.violation(K_EXEC, "wild refuses an input whose .note.GNU-stack is executable unless -z execstack is given; GNU ld links with an RWE PT_GNU_STACK", replay(i))
+                violation_once(K_EXEC, "wild refuses an input whose .note.GNU-stack is executable unless -z execstack is given; GNU ld links with an RWE PT_GNU_STACK", lambda: replay(i))
             elif any_x and c.z == "n":
-                ctx.violation(K_EXEC_NOEXEC, "wild refuses an executable .note.GNU-stack even with an explicit -z noexecstack; GNU ld links with an RW PT_GNU_STACK", replay(i))
+                violation_once(K_EXEC_NOEXEC, "wild refuses an executable .note.GNU-stack even with an explicit -z noexecstack; GNU ld links with an RW PT_GNU_STACK", lambda: replay(i))
             else:
-                ctx.violation("stack:error:" + reqs[i], f"wild fails with a stack error where GNU ld links: {cl}", replay(i))
+                violation_once("stack:error:" + reqs[i], f"wild fails with a stack error where GNU ld links: {cl}", lambda: replay(i))
             continue
         if cw.startswith("err:unclassified"):
             ctx.cov["impl_oracle_failures"] += 1
             t = int(cw.split(":")[2], 16)
             if py_class(t) is None and any(p[0] == t and p[1] == 4 for p in c.all_props()):
-                ctx.violation(K_UNCLASSIFIED, f"wild fails the link on a 4-byte property of a type outside its class ranges (0x{t:x}); GNU ld links", replay(i))
+                violation_once(K_UNCLASSIFIED, f"wild fails the link on a 4-byte property of a type outside its class ranges (0x{t:x}); GNU ld links", lambda: replay(i))
             else:
-                ctx.violation("props:error:" + reqs[i], f"wild reports an unclassified property type 0x{t:x} that is classified / not in the input", replay(i))
+                violation_once("props:error:" + reqs[i], f"wild reports an unclassified property type 0x{t:x} that is classified / not in the input", lambda: replay(i))
             continue
         if cw.startswith("err"):
             ctx.cov["impl_oracle_failures"] += 1
-            ctx.violation("link-error:" + reqs[i], f"wild fails ({cw}) where GNU ld links: {cl}", replay(i))
+            violation_once("link-error:" + reqs[i], f"wild fails ({cw}) where GNU ld links: {cl}", lambda: replay(i))
             continue
         if xbit(wst) != xbit(lst):
             ctx.cov["impl_oracle_failures"] += 1
             if c.z == "-" and any_m and not all_m and not any_x and xbit(wst) == 0 and xbit(lst) == 1:
-                ctx.violation(K_MISSING, "an input without .note.GNU-stack: GNU ld 2.40 emits an RWE PT_GNU_STACK (x86-64 default), wild emits RW", replay(i))
+                violation_once(K_MISSING, "an input without .note.GNU-stack: GNU ld 2.40 emits an RWE PT_GNU_STACK (x86-64 default), wild emits RW", lambda: replay(i))
             else:
-                ctx.violation("stack:xbit:" + reqs[i], f"PT_GNU_STACK executable bit differs: wild {wst}, GNU ld {lst}", replay(i))
+                violation_once("stack:xbit:" + reqs[i], f"PT_GNU_STACK executable bit differs: wild {wst}, GNU ld {lst}", lambda: replay(i))
         elif wst != lst:
             if lst is None and all_m and c.z == "-":
                 ctx.count("oracle", "stack-header-presence-differs(no input has a stack note; both non-executable)")
             else:
                 ctx.cov["impl_oracle_failures"] += 1
-                ctx.violation("stack:flags:" + reqs[i], f"PT_GNU_STACK differs: wild {wst}, GNU ld {lst}", replay(i))
+                violation_once("stack:flags:" + reqs[i], f"PT_GNU_STACK differs: wild {wst}, GNU ld {lst}", lambda: replay(i))
         # ---- properties
         if c.in_uint32_region():
             if wpr != lpr:
                 ctx.cov["impl_oracle_failures"] += 1
-                ctx.violation("props:" + reqs[i], f"output .note.gnu.property differs: wild {wpr}, GNU ld {lpr}", replay(i))
+                violation_once("props:" + reqs[i], f"output .note.gnu.property differs: wild {wpr}, GNU ld {lpr}", lambda: replay(i))
         else:
             # compare the UINT32 entries; report dropped non-UINT32 properties under their own key
             l4 = ",".join(x for x in lpr.split(",") if ":b" not in x and x != "-" and py_class(int(x.split(":")[0], 16))) or "-"
@@ -483,10 +519,10 @@ def run(ctx):
             if lother != wother:
                 ctx.cov["impl_oracle_failures"] += 1
                 if not wother and all(int(x.split(":")[0], 16) in (1, 2) for x in lother):
-                    ctx.violation(K_NON_U32, "GNU_PROPERTY_STACK_SIZE / GNU_PROPERTY_NO_COPY_ON_PROTECTED are dropped from the output note; GNU ld keeps them", replay(i))
+                    violation_once(K_NON_U32, "GNU_PROPERTY_STACK_SIZE / GNU_PROPERTY_NO_COPY_ON_PROTECTED are dropped from the output note; GNU ld keeps them", lambda: replay(i))
                 else:
-                    ctx.violation("props:non-uint32:" + reqs[i], f"non-UINT32 properties differ: wild {wother}, GNU ld {lother}", replay(i))
+                    violation_once("props:non-uint32:" + reqs[i], f"non-UINT32 properties differ: wild {wother}, GNU ld {lother}", lambda: replay(i))
             if w4 != l4:
                 ctx.cov["impl_oracle_failures"] += 1
-                ctx.violation("props:" + reqs[i], f"output .note.gnu.property differs: wild {w4}, GNU ld {l4}", replay(i))
+                violation_once("props:" + reqs[i], f"output .note.gnu.property differs: wild {w4}, GNU ld {l4}", lambda: replay(i))
     ctx.cov["oracle_links_checked"] = sum(1 for x in ld_c if not x.startswith("skipped"))
